@@ -11,7 +11,7 @@ use rs1090::decode::{AC13Field, Capability, ControlField, ControlFieldType, Down
                      UtilityMessage, UtilityMessageType, DF, ICAO};
 use rs1090::prelude::*;
 
-#[path = "/repo/crates/jet1090/src/filters.rs"]
+#[path = "../../repo/crates/jet1090/src/filters.rs"]
 pub mod filters;
 use filters::Filters;
 
